@@ -65,6 +65,7 @@ type Term struct {
 	Hi, Lo int      // extract; Zext/Sext: Hi = added bits
 	ID     int
 	hard   bool // contains mul/div/rem by non-constant-power-of-two (arith heavy)
+	K0, K1 uint64 // known-zero / known-one bit masks (W in 1..64)
 }
 
 var (
@@ -99,8 +100,84 @@ func intern(t *Term) *Term {
 	case OpMul, OpUDiv, OpSDiv, OpURem, OpSRem:
 		t.hard = true
 	}
+	t.knownBits()
 	termTab[k] = t
 	return t
+}
+
+// knownBits computes the known-zero / known-one masks of a bit-vector term.
+func (t *Term) knownBits() {
+	w := t.W
+	if w == 0 || w > 64 {
+		return
+	}
+	m := mask(w)
+	a := func(i int) (uint64, uint64) {
+		x := t.Args[i]
+		if x.W == 0 || x.W > 64 {
+			return 0, 0
+		}
+		return x.K0, x.K1
+	}
+	switch t.Op {
+	case OpConst:
+		t.K1 = t.Val & m
+		t.K0 = ^t.Val & m
+	case OpBAnd:
+		a0, a1 := a(0)
+		b0, b1 := a(1)
+		t.K1 = a1 & b1
+		t.K0 = (a0 | b0) & m
+	case OpBOr:
+		a0, a1 := a(0)
+		b0, b1 := a(1)
+		t.K1 = (a1 | b1) & m
+		t.K0 = a0 & b0
+	case OpBXor:
+		a0, a1 := a(0)
+		b0, b1 := a(1)
+		t.K1 = (a1&b0 | a0&b1) & m
+		t.K0 = (a0&b0 | a1&b1) & m
+	case OpBNot:
+		a0, a1 := a(0)
+		t.K0, t.K1 = a1, a0
+	case OpIte:
+		a0, a1 := a(1)
+		b0, b1 := a(2)
+		t.K0, t.K1 = a0&b0, a1&b1
+	case OpShl:
+		if c := t.Args[1]; c.IsConst() && c.Big == nil && c.Val < uint64(w) {
+			a0, a1 := a(0)
+			k := uint(c.Val)
+			t.K1 = (a1 << k) & m
+			t.K0 = ((a0 << k) | (uint64(1)<<k - 1)) & m
+		}
+	case OpLshr:
+		if c := t.Args[1]; c.IsConst() && c.Big == nil && c.Val < uint64(w) {
+			a0, a1 := a(0)
+			k := uint(c.Val)
+			t.K1 = a1 >> k
+			t.K0 = (a0>>k | ^(m >> k)) & m
+		}
+	case OpZext:
+		x := t.Args[0]
+		if x.W <= 64 {
+			t.K1 = x.K1
+			t.K0 = (x.K0 | ^mask(x.W)) & m
+		}
+	case OpExtract:
+		x := t.Args[0]
+		if x.W <= 64 {
+			t.K1 = (x.K1 >> uint(t.Lo)) & m
+			t.K0 = (x.K0 >> uint(t.Lo)) & m
+		}
+	case OpConcat:
+		h, l := t.Args[0], t.Args[1]
+		if h.W <= 64 && l.W <= 64 {
+			t.K1 = (h.K1<<uint(l.W) | l.K1) & m
+			t.K0 = (h.K0<<uint(l.W) | l.K0) & m
+		}
+	}
 }
 
 func mask(w int) uint64 {
@@ -171,7 +248,15 @@ func (t *Term) Signed() int64 {
 }
 
 func mk(op Op, w int, args ...*Term) *Term {
-	return intern(&Term{Op: op, W: w, Args: args})
+	return collapse(intern(&Term{Op: op, W: w, Args: args}))
+}
+
+// collapse replaces a term all of whose bits are known by the constant.
+func collapse(t *Term) *Term {
+	if t.W > 0 && t.W <= 64 && t.Op != OpConst && (t.K0|t.K1) == mask(t.W) {
+		return BV(t.W, t.K1)
+	}
+	return t
 }
 
 // ---------- Boolean ----------
@@ -314,6 +399,9 @@ func Eq(a, b *Term) *Term {
 	}
 	if a.IsConst() && b.IsConst() {
 		return False // hash-consed: distinct constants
+	}
+	if a.W > 0 && a.W <= 64 && (a.K1&b.K0 != 0 || a.K0&b.K1 != 0) {
+		return False // some bit is known to differ
 	}
 	if a.W == 0 {
 		if a.IsConst() {
@@ -643,6 +731,26 @@ func Cmp(op Op, a, b *Term) *Term {
 	if a == b {
 		return Bool(op == OpUle || op == OpSle)
 	}
+	if a.W <= 64 && (op == OpUlt || op == OpUle) {
+		m := mask(a.W)
+		amin, amax := a.K1, ^a.K0&m
+		bmin, bmax := b.K1, ^b.K0&m
+		if op == OpUlt {
+			if amax < bmin {
+				return True
+			}
+			if amin >= bmax {
+				return False
+			}
+		} else {
+			if amax <= bmin {
+				return True
+			}
+			if amin > bmax {
+				return False
+			}
+		}
+	}
 	// push comparisons through ite over constants
 	if b.IsConst() && a.Op == OpIte && a.Args[1].IsConst() && a.Args[2].IsConst() {
 		return Ite(a.Args[0], Cmp(op, a.Args[1], b), Cmp(op, a.Args[2], b))
@@ -696,7 +804,7 @@ func Extract(hi, lo int, a *Term) *Term {
 			return Ite(a.Args[0], Extract(hi, lo, a.Args[1]), Extract(hi, lo, a.Args[2]))
 		}
 	}
-	return intern(&Term{Op: OpExtract, W: w, Args: []*Term{a}, Hi: hi, Lo: lo})
+	return collapse(intern(&Term{Op: OpExtract, W: w, Args: []*Term{a}, Hi: hi, Lo: lo}))
 }
 
 func Zext(a *Term, to int) *Term {
@@ -712,7 +820,7 @@ func Zext(a *Term, to int) *Term {
 	if a.Op == OpZext {
 		return Zext(a.Args[0], to)
 	}
-	return intern(&Term{Op: OpZext, W: to, Args: []*Term{a}, Hi: to - a.W})
+	return collapse(intern(&Term{Op: OpZext, W: to, Args: []*Term{a}, Hi: to - a.W}))
 }
 
 func Sext(a *Term, to int) *Term {
